@@ -2,6 +2,7 @@ package props
 
 import (
 	"fmt"
+	"math"
 	"reflect"
 	"runtime"
 	"sort"
@@ -53,6 +54,7 @@ func c17Groups(tier string) []core.Group {
 		pr := pr
 		gs = append(gs, core.Group{Key: "mask/" + pr.name, Run: func(c *core.Ctx) { c17Mask(c, pr) }})
 	}
+	gs = append(gs, core.Group{Key: "softmax-twins", Run: c17SoftmaxTwins})
 	gs = append(gs, core.Group{Key: "map-err", Run: c17MapErr})
 	gs = append(gs, core.Group{Key: "masked-arg", Run: c17MaskedArg})
 	gs = append(gs, core.Group{Key: "masked-map", Run: c17MaskedMap})
@@ -1453,4 +1455,94 @@ func c17ReduceOrder(c *core.Ctx) {
 		}
 	}
 	c.Control(c17Deviants([]xtObs{{t: model.TInt32, vals: []complex128{159}}, {t: model.TInt64, vals: []complex128{159}}, {t: model.TStr, vals: []complex128{951}}})[0] == model.TStr)
+}
+
+// c17SoftmaxTwins: the softmax family is written out twice by hand, once per float type (last-axis and inner-axis kernels,
+// forward and gradient). The float32 twin has to compute what the float64 twin computes, on every shape class and axis.
+func c17SoftmaxTwins(c *core.Ctx) {
+	shapes := [][]int{{4}, {2, 3}, {3, 2}, {2, 2, 3}, {2, 3, 2}, {3, 2, 2}, {2, 3, 4}}
+	if c.Tier == "thorough" {
+		shapes = append(shapes, []int{1, 3}, []int{3, 1}, []int{2, 1, 3}, []int{2, 2, 2, 3}, []int{3, 2, 2, 2})
+	}
+	type op struct {
+		name string
+		run  func(x, g tensor.Tensor, axis int) (tensor.Tensor, error)
+	}
+	ops := []op{
+		{"SoftMax", func(x, g tensor.Tensor, axis int) (tensor.Tensor, error) { return tensor.SoftMax(x, axis) }},
+		{"LogSoftMax", func(x, g tensor.Tensor, axis int) (tensor.Tensor, error) { return tensor.LogSoftMax(x, axis) }},
+		{"SoftMaxB", func(x, g tensor.Tensor, axis int) (tensor.Tensor, error) {
+			out, err := tensor.SoftMax(x, axis)
+			if err != nil {
+				return nil, err
+			}
+			return tensor.SoftMaxB(out, g, axis)
+		}},
+		{"LogSoftMaxB", func(x, g tensor.Tensor, axis int) (tensor.Tensor, error) {
+			out, err := tensor.LogSoftMax(x, axis)
+			if err != nil {
+				return nil, err
+			}
+			return tensor.LogSoftMaxB(out, g, axis)
+		}},
+	}
+	for _, shape := range shapes {
+		n := model.Size(shape)
+		for axis := 0; axis < len(shape); axis++ {
+			for _, o := range ops {
+				xi, gi := make([]int64, n), make([]int64, n)
+				for i := range xi {
+					xi[i] = int64(c.Rng.Intn(7)) - 3
+					gi[i] = int64(c.Rng.Intn(5)) - 2
+				}
+				caseKey := fmt.Sprintf("softmax-twins/%s/%s/axis%d", o.name, shapeStr(shape), axis)
+				c.Begin(caseKey) // a fault inside the kernels' worker goroutines ends the process: the open case names it
+				results := map[reflect.Type][]float64{}
+				refused := false
+				for _, t := range []reflect.Type{model.TF64, model.TF32} {
+					x, e1 := gen.Build(model.New(t, shape, fromInts(t, xi)), gen.LC, c.Rng)
+					g, e2 := gen.Build(model.New(t, shape, fromInts(t, gi)), gen.LC, c.Rng)
+					if e1 != nil || e2 != nil {
+						refused = true
+						break
+					}
+					var r tensor.Tensor
+					var err error
+					if p, _ := core.Catch(func() { r, err = o.run(x.D, g.D, axis) }); p || err != nil || r == nil {
+						refused = true
+						break
+					}
+					m, rerr := gen.ReadAll(r)
+					if rerr != nil || !gen.ShapeEq(m.Shape, shape) {
+						c.Violation(core.Sig("softmax-twins", o.name, model.Name(t), "result-shape"), caseKey, map[string]interface{}{"shape": shape, "axis": axis}, shapeStr(shape), fmt.Sprint(rerr))
+						refused = true
+						break
+					}
+					vals := make([]float64, len(m.V))
+					for i, v := range m.V {
+						vals[i] = model.ToFloat(v)
+					}
+					results[t] = vals
+				}
+				c.Eval(core.Sig("softmax-twins", o.name, shapeStr(shape), fmt.Sprint(axis)), true)
+				if refused {
+					c.Refused("softmax-twins:" + o.name)
+					continue
+				}
+				a, b := results[model.TF64], results[model.TF32]
+				for i := range a {
+					if d := math.Abs(a[i] - b[i]); d > 1e-4*(1+math.Abs(a[i])) {
+						lastOrInner := "inner-axis"
+						if axis == len(shape)-1 {
+							lastOrInner = "last-axis"
+						}
+						c.Violation(core.Sig("softmax-twins", o.name, lastOrInner, "float32-differs-from-float64"), caseKey,
+							map[string]interface{}{"operation": o.name, "shape": shape, "axis": axis, "x": xi, "grad": gi}, short(a), short(b))
+						break
+					}
+				}
+			}
+		}
+	}
+	c.Control(math.Abs(1.0-1.001) > 1e-4*(1+1.0))
 }
